@@ -411,3 +411,8 @@ def run(ctx):
 
     r = ctx.rule("R3k", "x86_64 interval abs / square / recip / sqrt / min / max / and / or / compare: on every order type of the bounds exactly one path is selected and its output encloses the operation's range over the box (or is the NaN interval)", 10)
     ctx.guarded(r, PW86.check_piecewise, "interval", choices=False)
+    from .. import hashsem as HS
+
+    r = ctx.rule("R3l", "interval rand / mix: on the path where each operand is a single bit pattern, the native clauses (x86_64 and aarch64) compute the hash term of fidget_core::rng", 4)
+    for arch in ("x86_64", "aarch64"):
+        ctx.guarded(r, HS.check_hash_terms, arch, "interval")
